@@ -2,8 +2,8 @@ import UncModel.Lemmas.LineEndLemmas
 /-!
 # C08 — line endings (terminator choice and census)
 
-The terminator-factorisation theorems about the output machine (`C08_addchar_terminators`,
-`C08_render_terminators`) are in `Props/C08Out.lean`.
+The terminator-factorisation theorems about the output machine (`addchar_terminators`,
+`render_terminators`) are in `Props/Render.lean`.
 -/
 namespace Unc
 
